@@ -255,6 +255,8 @@ def run(run, tier, replay=None):
         jobs.append((f"{l}/docattr", d, "none", {"docstrings_on_attributes": True}, 0))
     for l, d in broken_docs():
         jobs.append((l, d, "none", None, 0))
+    for i, cfg in enumerate(G.RESERVED_CFGS):
+        jobs.append((f"reserved{i}", G.reserved_doc(), "none", cfg, 0))
     nh = 24 if tier == "quick" else 300
     for i in range(nh):
         d = hostile_doc(random.Random(rng.randrange(1 << 30)), allow_gap=(i % 6 == 0))
